@@ -5,7 +5,8 @@ T = "GeomV.C15."
 
 
 def pregen(check):
-    """T1 tie: regenerate lean/GeomV/C15/Gen.lean (similar, pointSimilar) from the current source"""
+    """T1 tie: regenerate lean/GeomV/C15/Gen.lean (similar, pointSimilar, pointsSimilar, ringSimilarFrom, ringSimilar and the
+    Point/MultiPoint/LineString/*Bounds methods) from the current source"""
     spec = importlib.util.spec_from_file_location("c15_go2lean", os.path.join(vcheck.HARNESS, "cmd", "c15", "go2lean.py"))
     mod = importlib.util.module_from_spec(spec); spec.loader.exec_module(mod)
     out = os.path.join(vcheck.LEAN, "GeomV", "C15", "Gen.lean")
@@ -31,16 +32,17 @@ CFG = {
         "C15_false_cases", "C15_false_type", "C15_false_count", "C15_false_vertex_count", "C15_false_no_partner",
         "C15_false_displaced_vertex", "C15_false_reversed", "C15_false_displaced_ring_vertex",
         "C15_false_displaced_member", "C15_ring_index_eq_rotation",
-        "C15_tie_similar", "C15_tie_pointSimilar",
-        "C15_model_eq_spec_blocks", "C15_greedy_iff_perfect_blocks", "C15_false_displaced_copy",
+        "C15_tie_similar", "C15_tie_pointSimilar", "C15_tie_pointsSimilar", "C15_tie_ringSimilarFrom", "C15_tie_ringSimilar",
+        "C15_tie_Point", "C15_tie_MultiPoint", "C15_tie_LineString", "C15_tie_Bounds",
+        "C15_model_eq_spec_blocks", "C15_greedy_iff_perfect_blocks", "C15_false_displaced_copy", "C15_sepRel_block", "C15_perturb_blocks", "C15_false_blocks",
         "C15_float_false", "C15_float_true", "C15_float_exact", "C15_float_symm", "truncInt_rounding",
         # compiled forms used by the judge executable (@[csimp]): proved equal to the Spec definitions
         "Spec.near_eq_C", "Spec.ringNear_eq_C", "Spec.existsMatching_eq_C"]],
     "trusted_base": [
         "Lean 4.33.0 kernel; axioms of every theorem printed by #print axioms must be within {propext, Classical.choice, Quot.sound}",
         "model lean/GeomV/C15/Model.lean is tied to /repo/similar.go by the correspondence run (both argument orders of every generated pair, exact comparison of the boolean answers) on every check",
-        "IEEE-754 rounding of a-b is modelled, not verified: the model computes |a-b| < e in exact rationals; generated coordinates/tolerances are dyadic (a-b exact) or keep |a-b| at least 10% away from e",
-        "harness/cmd/c15/go2lean.py (70-line expression translator) for the regenerated definitions of similar/pointSimilar (Gen.lean); exercised by the same correspondence run",
+        "IEEE-754: Go's float64 a-b is assumed to be a monotone, odd rounding that leaves representable numbers alone; under that assumption ProofsFloat.lean proves that the float comparison equals the exact one unless |a-b| lies strictly between e and its representable predecessor; generated coordinates/tolerances are dyadic (a-b exact) or keep |a-b| at least 10% away from e",
+        "harness/cmd/c15/go2lean.py (expression + simple-loop + single-case type-switch translator, ~300 lines) for the regenerated definitions of similar, pointSimilar, pointsSimilar, ringSimilarFrom, ringSimilar and the Point/MultiPoint/LineString/*Bounds methods (Gen.lean); exercised by the same correspondence run",
         "harness/cmd/c15 + lean driver + lib/vcheck.py transport inputs faithfully",
     ],
     "assumptions": [
@@ -57,6 +59,14 @@ CFG = {
             "holes in polygons / multi-polygons / collections; vertex and member counts 64,128,129,1024,1025,2048; deletions/insertions at the END of a list. "
             "every 7th base has coordinates of magnitude 2^24..2^40 on a 2^-10 lattice with tol 2^-30/2^-20/1e-9 (a-b exact, a±tol not representable; zero perturbation); "
             "ring moved to / rings exchanged between sibling member polygons of a multi-polygon or collection (F). "
+            "REPEATED members: every member-list kind (lines, rings, polygons of a multi-polygon, rings of one member polygon, collection of points, "
+            "collection of mixed types) at 65/66/67/70, 128..131 and 5/33/63/64 members with two or three bit-identical copies of one member at positions "
+            "(n-2,n-1), (<64,n-1), (63,64): copy / combo (T), one copy displaced with the other kept, also permuted+perturbed with the kept copy last (F), "
+            "another member replaced by a further copy (F); judged by the specification under blockSeparated. "
+            "two vertices of a point list exchanged (F), a whole member shifted rigidly (F), one vertex displaced at index 1,2,k/2,k/2+1,k-3,k-2 of lists "
+            "of 64..2048 vertices and of a 1025-vertex ring (F). "
+            "concurrent callers (~120 'conc-' lines): 8 goroutines repeat the pair on private copies while 8 others call Similar on large unrelated "
+            "geometries; any answer differing from the answer obtained alone is a violation. "
             "Every pair is evaluated by the harness under five operand layouts (plain; packed = consecutive windows of one flat buffer with spare capacity; "
             "shared = prefix lists are re-slices of the other operand's backing array / same slice on both sides; nil for empty; in-place overwrite of an "
             "already-compared operand), four calls per layout (AB, BA, AB, BA) with a bit-for-bit comparison of both operands after every call. "
